@@ -27,10 +27,12 @@ let str_slot ((b, i) : slot) = dec_of_z b ^ "." ^ dec_of_z i
 let str_int show (i : int) (t : 'k table) : string =
   let bs = List.mapi (fun j c -> (j, c)) t.buckets in
   let bs = List.filter (fun (_, c) -> c <> []) bs in
-  Printf.sprintf "%d:cap=%s,d=%d,nb=%s,B[%s],S[%s],F[%s]" i (dec_of_z t.cap) (if t.has_data then 1 else 0) (dec_of_z t.nblocks)
+  Printf.sprintf "%d:cap=%s,d=%d,nb=%s,B[%s],S[%s],F[%s],E=%s,T=%d" i (dec_of_z t.cap) (if t.has_data then 1 else 0) (dec_of_z t.nblocks)
     (String.concat " " (List.map (fun (j, c) -> Printf.sprintf "%d=%s" j (String.concat "," (List.map show c))) bs))
     (String.concat " " (List.map (fun n -> str_slot n.nslot) t.order))
     (String.concat " " (List.map str_slot t.free))
+    (match t.end_prev with None -> "-" | Some s -> str_slot s)     (* endItem.prev *)
+    (int_of_nat t.end_owner)                                       (* the sentinel the list runs into *)
 
 let parse_op (pk : string -> 'k) (toks : string list) : 'k op =
   let n s = nat_of_int (int_of_string s) in
@@ -61,7 +63,7 @@ let parse_op (pk : string -> 'k) (toks : string list) : 'k op =
   | _ -> failwith ("bad op: " ^ String.concat " " toks)
 
 let model_runner pk show keqb hash kd caps : runner =
-  let st = ref (List.map (fun c -> new_table (ctor_cap c)) caps) in
+  let st = ref (init (List.map ctor_cap caps)) in
   { step_line = (fun toks ->
       let (st', r) = step keqb hash kd !st (parse_op pk toks) in
       st := st';
